@@ -453,6 +453,46 @@ def check_case(t, v, idx):
     except R.RefError as e:
         out.append(("C08", "ref-cannot-decode-impl-bytes", str(e)))
         rb = None
+    # ---- the same value handed over in another legal Python shape (any
+    # Sequence for sequence and tuple types, any Set, any Mapping) must be
+    # written as the same value
+    alts = []
+    nm_ = t[0]
+    if nm_ == "sequence" and isinstance(iv, list):
+        alts.append(("tuple", tuple(iv)))
+        if iv and all(type(x) is int and 0 <= x < 256 for x in iv):
+            alts += [("bytes", bytes(iv)), ("bytearray", bytearray(iv))]
+        if iv and all(type(x) is int for x in iv) and len(iv) > 1 \
+                and iv == list(range(iv[0], iv[0] + len(iv))):
+            alts.append(("range", range(iv[0], iv[0] + len(iv))))
+    elif nm_ == "set" and isinstance(iv, set):
+        alts.append(("frozenset", frozenset(iv)))
+        alts.append(("keys-view", dict.fromkeys(iv).keys()))
+    elif nm_ == "mapping" and isinstance(iv, dict):
+        import collections
+        import types
+
+        alts.append(("OrderedDict", collections.OrderedDict(iv)))
+        alts.append(("mappingproxy", types.MappingProxyType(iv)))
+    elif nm_ == "tuple" and isinstance(iv, tuple):
+        alts.append(("list", list(iv)))
+    for aname, av in alts:
+        try:
+            ab = br.enc(av, tname)
+            same_bytes = (ab == b) if not has_unordered(t) else (
+                len(ab) == len(b)
+                and R.freeze(R.decode(ab, t)) == want)
+            if not same_bytes:
+                out.append(("C08", "bytes-differ:value-given-as-" + aname,
+                            "as %s: %s, as %s: %s"
+                            % (type(iv).__name__, b.hex()[:80], aname,
+                               ab.hex()[:80])))
+                out.append(("C07", "roundtrip-value:value-given-as-" + aname,
+                            "encoding of the %s differs from the encoding "
+                            "of the equal %s" % (aname, type(iv).__name__)))
+        except Exception as e:  # noqa
+            out.append(("C07", "encode-exception:value-given-as-%s:%s"
+                        % (aname, type(e).__name__), repr(e)[:200]))
     # ---- C07: round trip
     for label, data, resolved in (("own", b, True), ("own-nolookup", b, False)):
         errs = []
